@@ -873,10 +873,30 @@ func (w *World) rulesVocab(out *[]Obligation) {
 			add(false, "R01.vocab", "order", lit, "v3 is order-free but an order table exists: undecided")
 		}
 		// kvm
-		if ov.Order == "free" {
+		if ks := (*KvmSem)(nil); ov.Order == "free" {
+			ks = p.kvmSem(p.parseModelOf())
+			if ks.Decided {
+				// semantic model (skvm.go): representation-independent
+				var want []string
+				for _, m := range ov.list {
+					want = append(want, m.Abv)
+				}
+				if sameSet(ks.Labels, want) {
+					add(true, "R01.vocab", "kvm.labels", ks.Fn, fmt.Sprintf("%d abbreviations accepted on the empty state = specification metrics", len(ks.Labels)))
+				} else {
+					add(false, "R01.vocab", "kvm.labels", ks.Fn, fmt.Sprintf("the defined-once check accepts %v, the specification metrics are %v", ks.Labels, want))
+				}
+				add(ks.StepOK, "R01.complete", "kvm.injective", ks.Fn, ks.StepWhy)
+				add(ks.DupOK, "R01.complete", "kvm.dup", ks.Fn, ks.DupWhy)
+				add(ks.UnkNonNil, "R01.complete", "kvm.default", ks.Fn, map[bool]string{true: "an unknown abbreviation is refused with a non-nil error", false: ks.UnkWhy}[ks.UnkNonNil])
+				add(ks.UnkTyped, "R18.default", "kvm.default", ks.Fn, ks.UnkWhy)
+				add(ks.NoPanic, "R01.complete", "kvm.nopanic", ks.Fn, map[bool]string{true: "no table is read outside its bounds in the defined-once logic", false: ks.PanicWhy}[ks.NoPanic])
+				w.rulesEmit(p, ov, ord, out)
+				continue
+			}
 			km := p.kvmModel()
 			if km == nil {
-				add(false, "R01.vocab", "kvm", nil, "no defined-once table (kvm) found: undecided")
+				add(false, "R01.vocab", "kvm", nil, "no defined-once check found in the v3 parser ("+ks.Why+"): undecided")
 			} else {
 				for _, pr := range km.Problems {
 					add(false, "R01.vocab", "kvm", km.Fn, pr)
